@@ -13,7 +13,33 @@ type bitMode int
 const (
 	bitsAll  bitMode = iota // every bit of a leaf <= 64 bytes; LSB, MSB, one middle bit of larger leaves
 	bitsLeaf                // LSB, MSB, one middle bit of every leaf
+	bitsLSB                 // the least significant bit of every leaf
 )
+
+// idxAlphabet restricts which positions of homogeneous arrays / maps longer than 8 are edited.
+type idxAlphabet int
+
+const (
+	idxAll  idxAlphabet = 0 // every position
+	idx5    idxAlphabet = 5 // {0, 1, mid, last-1, last} (DESIGN 3.4)
+	idx2    idxAlphabet = 2 // {0, last}
+	idx1    idxAlphabet = 1 // {0}
+)
+
+func (a idxAlphabet) has(i, n int) bool {
+	if n <= 8 {
+		return true
+	}
+	switch a {
+	case idx5:
+		return i == 0 || i == 1 || i == n/2 || i == n-2 || i == n-1
+	case idx2:
+		return i == 0 || i == n-1
+	case idx1:
+		return i == 0
+	}
+	return true
+}
 
 // edit is one single-fault mutation of a CBOR-encoded value.
 type edit struct {
@@ -23,10 +49,6 @@ type edit struct {
 	gen func(w *walker) []byte
 }
 
-// indexAlphabet: positions explored inside homogeneous arrays longer than 8 (DESIGN 3.4) when restricted.
-func inIndexAlphabet(i, n int) bool {
-	return n <= 8 || i == 0 || i == 1 || i == n/2 || i == n-2 || i == n-1
-}
 
 type walker struct {
 	root   *cbor.Node
@@ -49,11 +71,18 @@ func newWalker(b []byte) *walker {
 	return w
 }
 
-// allowed reports whether every enclosing long array is entered at an index of the alphabet.
-func (w *walker) allowed(r *cbor.Ref) bool {
+// allowed reports whether every enclosing long array / map is entered at a position of the alphabet.
+func (w *walker) allowed(r *cbor.Ref, a idxAlphabet) bool {
 	for r != nil && r.Parent != nil {
-		if r.Parent.Kind == cbor.Array && !inIndexAlphabet(r.Index, len(r.Parent.Items)) {
-			return false
+		switch r.Parent.Kind {
+		case cbor.Array:
+			if !a.has(r.Index, len(r.Parent.Items)) {
+				return false
+			}
+		case cbor.Map:
+			if !a.has((r.Index-1)/2, len(r.Parent.Items)/2) {
+				return false
+			}
 		}
 		r = w.parent[r.Parent]
 	}
@@ -63,6 +92,9 @@ func (w *walker) allowed(r *cbor.Ref) bool {
 func bitPositions(nbits int, mode bitMode, leafLen int) []int {
 	if nbits == 0 {
 		return nil
+	}
+	if mode == bitsLSB {
+		return []int{nbits - 1}
 	}
 	if mode == bitsAll && leafLen <= 64 {
 		out := make([]int, nbits)
@@ -82,8 +114,8 @@ func bitPositions(nbits int, mode bitMode, leafLen int) []int {
 }
 
 // enumerateEdits lists every single-fault edit of b (bit index 0 = most significant bit of the first byte).
-// restrict applies the index alphabet to arrays longer than 8.
-func enumerateEdits(b []byte, mode bitMode, restrict bool) []edit {
+// restrict is the index alphabet applied to arrays / maps longer than 8.
+func enumerateEdits(b []byte, mode bitMode, restrict idxAlphabet) []edit {
 	w := newWalker(b)
 	var out []edit
 	add := func(class, desc string, gen func(w *walker) []byte) {
@@ -99,7 +131,7 @@ func enumerateEdits(b []byte, mode bitMode, restrict bool) []edit {
 		}
 	}
 	fixed := func(enc []byte) func(*walker) []byte { return func(*walker) []byte { return enc } }
-	ok := func(r *cbor.Ref) bool { return !restrict || w.allowed(r) }
+	ok := func(r *cbor.Ref) bool { return w.allowed(r, restrict) }
 
 	byKind := map[string][]int{}
 	var kinds []string
@@ -174,6 +206,9 @@ func enumerateEdits(b []byte, mode bitMode, restrict bool) []edit {
 		case cbor.Map:
 			for e := 0; e+1 < len(n.Items); e += 2 {
 				e := e
+				if !restrict.has(e/2, len(n.Items)/2) {
+					continue
+				}
 				key := n.Items[e]
 				kn := "?"
 				if key.Kind == cbor.Text {
@@ -206,7 +241,7 @@ func enumerateEdits(b []byte, mode bitMode, restrict bool) []edit {
 			ln := len(n.Items)
 			for e := 0; e < ln; e++ {
 				e := e
-				if restrict && !inIndexAlphabet(e, ln) {
+				if !restrict.has(e, ln) {
 					continue
 				}
 				add("drop", fmt.Sprintf("%s[%d] dropped (len %d)", r.Path, e, ln), onClone(i, func(_ *cbor.Node, c cbor.Ref) {
@@ -273,7 +308,7 @@ func enumerateEdits(b []byte, mode bitMode, restrict bool) []edit {
 }
 
 // spliceEdits replaces each leaf of b by the leaf at the same path of donor (another valid value of the same kind).
-func spliceEdits(b, donor []byte, restrict bool) []edit {
+func spliceEdits(b, donor []byte, restrict idxAlphabet) []edit {
 	w := newWalker(b)
 	d, err := cbor.Parse(donor)
 	if err != nil {
@@ -286,7 +321,7 @@ func spliceEdits(b, donor []byte, restrict bool) []edit {
 	var out []edit
 	for i := range w.refs {
 		r := &w.refs[i]
-		if !r.Node.IsLeaf() || (restrict && !w.allowed(r)) {
+		if !r.Node.IsLeaf() || !w.allowed(r, restrict) {
 			continue
 		}
 		dn, ok := dl[r.Path]
